@@ -1,9 +1,97 @@
 import SoundeventModel.Ops.Common
+import SoundeventModel.Aoef.Closure
 namespace SE.Ops.C01
-open Lean SE
+open Lean SE SE.Aoef SE.Paths
 
-def handle (op : String) (_a : Json) : Except String Json := do
+def keysOf (j : Json) : Json :=
+  match j with
+  | .obj kvs => arrJ (kvs.toList.map (fun kv => Json.str kv.1))
+  | _ => Json.arr #[]
+
+/-- field names of every model structure (from its `ToJson` instance), for `FieldsAgree` -/
+def fieldTable : Json :=
+  Json.mkObj [
+    ("User", keysOf (toJson (default : User))), ("Tag", keysOf (toJson (default : Tag))),
+    ("Feature", keysOf (toJson (default : Feature))), ("Note", keysOf (toJson (default : Note))),
+    ("Recording", keysOf (toJson (default : Recording))), ("Clip", keysOf (toJson (default : Clip))),
+    ("SoundEvent", keysOf (toJson (default : SoundEvent))),
+    ("Sequence", keysOf (toJson (default : Sequence))),
+    ("SoundEventAnnotation", keysOf (toJson (default : SoundEventAnnotation))),
+    ("SequenceAnnotation", keysOf (toJson (default : SequenceAnnotation))),
+    ("ClipAnnotation", keysOf (toJson (default : ClipAnnotation))),
+    ("StatusBadge", keysOf (toJson (default : StatusBadge))),
+    ("AnnotationTask", keysOf (toJson (default : AnnotationTask))),
+    ("PredictedTag", keysOf (toJson (default : PredictedTag))),
+    ("SoundEventPrediction", keysOf (toJson (default : SoundEventPrediction))),
+    ("SequencePrediction", keysOf (toJson (default : SequencePrediction))),
+    ("ClipPrediction", keysOf (toJson (default : ClipPrediction))),
+    ("Match", keysOf (toJson (default : Match))),
+    ("ClipEvaluation", keysOf (toJson (default : ClipEvaluation))),
+    ("RecordingSet", keysOf (toJson (default : RecordingSet))),
+    ("Dataset", keysOf (toJson (default : Dataset))),
+    ("AnnotationSet", keysOf (toJson (default : AnnotationSet))),
+    ("AnnotationProject", keysOf (toJson (default : AnnotationProject))),
+    ("EvaluationSet", keysOf (toJson (default : EvaluationSet))),
+    ("PredictionSet", keysOf (toJson (default : PredictionSet))),
+    ("ModelRun", keysOf (toJson (default : ModelRun))),
+    ("Evaluation", keysOf (toJson (default : Evaluation))),
+    ("UserObject", keysOf (toJson (default : UserObj))), ("TagObject", keysOf (toJson (default : TagObj))),
+    ("NoteObject", keysOf (toJson (default : NoteObj))),
+    ("RecordingObject", keysOf (toJson (default : RecordingObj))),
+    ("ClipObject", keysOf (toJson (default : ClipObj))),
+    ("SoundEventObject", keysOf (toJson (default : SoundEventObj))),
+    ("SequenceObject", keysOf (toJson (default : SequenceObj))),
+    ("SoundEventAnnotationObject", keysOf (toJson (default : SoundEventAnnotationObj))),
+    ("SequenceAnnotationObject", keysOf (toJson (default : SequenceAnnotationObj))),
+    ("ClipAnnotationsObject", keysOf (toJson (default : ClipAnnotationsObj))),
+    ("StatusBadgeObject", keysOf (toJson (default : StatusBadgeObj))),
+    ("AnnotationTaskObject", keysOf (toJson (default : AnnotationTaskObj))),
+    ("SoundEventPredictionObject", keysOf (toJson (default : SoundEventPredictionObj))),
+    ("SequencePredictionObject", keysOf (toJson (default : SequencePredictionObj))),
+    ("ClipPredictionsObject", keysOf (toJson (default : ClipPredictionsObj))),
+    ("MatchObject", keysOf (toJson (default : MatchObj))),
+    ("ClipEvaluationObject", keysOf (toJson (default : ClipEvaluationObj))),
+    ("RecordingSetObject", toJson (Doc.keys "recording_set")),
+    ("DatasetObject", toJson (Doc.keys "dataset")),
+    ("AnnotationSetObject", toJson (Doc.keys "annotation_set")),
+    ("AnnotationProjectObject", toJson (Doc.keys "annotation_project")),
+    ("EvaluationSetObject", toJson (Doc.keys "evaluation_set")),
+    ("PredictionSetObject", toJson (Doc.keys "prediction_set")),
+    ("ModelRunObject", toJson (Doc.keys "model_run")),
+    ("EvaluationObject", toJson (Doc.keys "evaluation"))]
+
+def optDir (a : Json) (k : String) : Except String (Option PPath) :=
+  match fldOpt a k with
+  | none => .ok none
+  | some v => do return some (parse (← v.getStr?))
+
+def getCollection (a : Json) : Except String Collection := do fromJson? (← fld a "collection")
+
+/-- `load (save c)` iterated `n` times: save under `sdir`, load under `ldir` -/
+def cycles (sdir ldir : Option PPath) : Nat → Collection → Except Err Collection
+  | 0, c => .ok c
+  | n + 1, c => do
+    let d ← save c sdir
+    let c' ← load d ldir
+    cycles sdir ldir n c'
+
+def handle (op : String) (a : Json) : Except String Json := do
   match op with
+  | "fields" => return fieldTable
+  | "save" =>
+    let c ← getCollection a
+    return exceptJ toJson (save c (← optDir a "audio_dir"))
+  | "load" =>
+    let d : Doc ← fromJson? (← fld a "doc")
+    return exceptJ toJson (load d (← optDir a "audio_dir"))
+  | "roundtrip" =>
+    let c ← getCollection a
+    let n ← fldNat a "n"
+    return exceptJ toJson (cycles (← optDir a "save_dir") (← optDir a "load_dir") n c)
+  | "echo" =>
+    -- parse a collection and write it back (validates the harness' encoding of objects)
+    let c ← getCollection a
+    return toJson c
   | _ => .error s!"C01: unknown op {op}"
 
 end SE.Ops.C01
